@@ -3,7 +3,7 @@
    Proved: the invariants that guard the modelled sites. NOT proved: absence of panics in the unmodelled code (the nom
    parser as a whole, libyaml, serde, clap, the console reporters), stack depth and termination in general - these are
    searched for by fuzzing (tools/gv/props/c08.py) and watched by the panic-site inventory. *)
-From GV.Model Require Import SEval Check.
+From GV.Model Require Import SEval Check Strat.
 From GV.Proofs Require Import NoPanicProps.
 
 Theorem C08_match_value_no_panic : forall cmpf l r site,
@@ -90,3 +90,23 @@ Theorem C08_termination_instance :
   terminates_within ex_prog 5 = Some 314%nat /\ terminates_within cyc_rule 5 = None /\ terminates_within cyc_vars 8 = None.
 Proof. exact termination_instance. Qed.
 Print Assumptions C08_termination_instance.
+(* ---- no panic site is reached (PanicProps.v): for a parser-shaped program (Strat.pwf_prog: no query starts with a filter,
+   the query of a clause is not empty, a `keys` filter compares with a binary operator, every function call has the arity of
+   its function - evaluated on every AST the implementation parses by the correspondence run), every document, every oracle
+   and every fuel, the evaluation of the file answers no `Panic p`, the site guarded by an invariant of the value excepted. *)
+From GV.Proofs Require Import PanicPure PanicProps.
+Theorem C08_no_panic_site_is_reached : forall re conv prog, pwf_prog prog = true ->
+  forall fuel doc p, eval_file re conv prog fuel doc = Panic p -> p = P_map_key_missing.
+Proof. exact eval_file_no_panic. Qed.
+Print Assumptions C08_no_panic_site_is_reached.
+Theorem C08_every_entry_point_is_panic_free : forall re conv prog, pwf_prog prog = true ->
+  forall n, NP (evalN re conv prog n).
+Proof. exact evalN_np. Qed.
+Print Assumptions C08_every_entry_point_is_panic_free.
+(* the operator layer as a whole: the negation never meets a ListIn result without a list *)
+Theorem C08_operator_layer_never_panics : forall re c lhs rhs p, cmp_compare re c lhs rhs <> Panic p.
+Proof. exact np_cmp_compare. Qed.
+Print Assumptions C08_operator_layer_never_panics.
+Theorem C08_no_panic_instance : pwf_prog ex_prog = true.
+Proof. exact ex_prog_pwf. Qed.
+Print Assumptions C08_no_panic_instance.
